@@ -111,6 +111,9 @@ func TestC17(t *testing.T) {
 		var ssc *stopSC
 		if rapid.IntRange(0, 2).Draw(rt, "stopresume") == 0 {
 			ssc = &stopSC{Every: rapid.IntRange(1, 4).Draw(rt, "saveevery"), StopsLeft: rapid.IntRange(1, 6).Draw(rt, "stops"), Skip: rapid.IntRange(0, 5).Draw(rt, "skipsaves")}
+			if rapid.Bool().Draw(rt, "resumeearlier") {
+				ssc.Back = rapid.Uint64().Draw(rt, "earlierwhich") | 1
+			}
 		}
 		rb := &recBowl{}
 		current := ""
@@ -199,8 +202,10 @@ func TestC17(t *testing.T) {
 // stopSC stops the patcher at some of the checkpoints it is offered.
 type stopSC struct {
 	Every, StopsLeft, Skip int
+	Back                   uint64 // != 0: resume from an earlier checkpoint than the one stopped at
 	calls                  int
 	last                   []byte
+	all                    [][]byte
 }
 
 func (s *stopSC) ShouldSave() bool {
@@ -221,6 +226,7 @@ func (s *stopSC) Save(c *patcher.Checkpoint) (patcher.AfterSaveAction, error) {
 		return patcher.AfterSaveContinue, nil
 	}
 	s.last = buf.Bytes()
+	s.all = append(s.all, s.last)
 	s.StopsLeft--
 	return patcher.AfterSaveStop, nil
 }
@@ -240,8 +246,13 @@ func (s *stopSC) onStop() func() *patcher.Checkpoint {
 		if s.last == nil {
 			return nil
 		}
+		from := s.last
+		if s.Back != 0 && len(s.all) > 1 {
+			from = s.all[int(s.Back%uint64(len(s.all)))]
+			Ev.Probe("same_patcher_resumed_from_an_earlier_checkpoint")
+		}
 		c := &patcher.Checkpoint{}
-		if gob.NewDecoder(bytes.NewReader(s.last)).Decode(c) != nil {
+		if gob.NewDecoder(bytes.NewReader(from)).Decode(c) != nil {
 			return nil
 		}
 		s.last = nil
